@@ -1,4 +1,5 @@
 import Pog.Lemmas.SinksDoc
+import Pog.Props.Dc
 /-
   C15 — spec text can never alter the structure of generated code.
 
@@ -39,6 +40,13 @@ import Pog.Lemmas.SinksDoc
   Trusted (correspondence only): M-pylex = CPython 3.12 tokenizer/string decoder; `jsonEscChar` =
   `json.dumps`; `splitLines`/`stripWs` = `str.splitlines`/`str.strip`; `textwrap` is a parameter.
 -/
+/-
+  C15 for the sink "string default of a dataclass field" through `_get_field_default` (Pog/Model/Dc.lean; claimed from Pog/Props/Dc.lean):
+    str_default_is_one_literal             the emitted text is always ONE string literal (for every default string)
+    str_default_exact / _partial           it evaluates to the default iff the string has no character outside the BMP
+    ✗ str_default_counterexample           an astral character comes back as two surrogates (json.dumps with ensure_ascii)
+-/
+-- INDEX Pog.DcProps: str_default_is_one_literal, str_default_exact, str_default_partial, str_default_counterexample, default_str, default_bool, default_int, default_float, default_enum_expr
 namespace Pog.C15
 open Pog
 
